@@ -86,10 +86,29 @@ def close(want, got):
     return values_equal(want, got, rtol=1e-9)
 
 
-def check(expr, free, rec, deciding=True):
-    """expr: sexpr, free: list of names."""
+def check(expr, free, rec, deciding=True, after_failed=None):
+    """expr: sexpr, free: list of names.  after_failed: another expression that is collapsed first, with the same
+    free variables and a new_var_func that gives up at its second request (the caller catches the exception, as
+    a generator that runs out of temporaries would): nothing of that call may show up in this one."""
     from pymbolic import var
     from dagrt.expression import collapse_constants
+    if after_failed is not None:
+        class OutOfNames(Exception):
+            pass
+        asked = []
+
+        def failing_new_var():
+            if asked:
+                raise OutOfNames()
+            asked.append(1)
+            return var("_stale0")
+        try:
+            collapse_constants(to_pym(after_failed), [var(n) for n in free], lambda v, e: None, failing_new_var)
+            rec.count("earlier_calls_that_completed")
+        except OutOfNames:
+            rec.count("earlier_calls_that_failed_midway")
+        except Exception:
+            rec.count("earlier_calls_that_raised_otherwise")
     pe = to_pym(expr)
     created = []
     assigned = []
@@ -103,6 +122,8 @@ def check(expr, free, rec, deciding=True):
         assigned.append((v, e))
 
     wit = {"expr": expr, "free": free}
+    if after_failed is not None:
+        wit["after_failed"] = after_failed
     try:
         with case_alarm(10):
             out = collapse_constants(pe, [var(n) for n in free], assign, new_var)
@@ -200,6 +221,7 @@ def check(expr, free, rec, deciding=True):
 
 def run_shard(shard, rec):
     rng = random.Random(shard["seed"])
+    prev = None
     for i in range(shard["count"]):
         nd = (i % 8 == 7)
         expr = gen(rng, rng.choice([1, 2, 3, 3, 4]), [], nd)
@@ -209,13 +231,15 @@ def run_shard(shard, rec):
         deciding = not has(expr, {"/", "if", "max", "min", "cmp", "sub"})
         for r in range(len(vs) + 1):
             for free in itertools.combinations(vs, r):
-                check(expr, list(free), rec, deciding)
+                check(expr, list(free), rec, deciding,
+                      after_failed=prev if (i % 4 == 1 and prev is not None) else None)
                 rec.case([expr, list(free)],
                          nontrivial=deciding and bool(vs) and expr[0] not in ("var", "num"))
+        prev = expr
         rec.count("expressions")
         rec.count("free_sets_all_subsets" if True else "")
 
 
 def replay(witness, rec):
-    check(witness["expr"], witness["free"], rec, True)
+    check(witness["expr"], witness["free"], rec, True, after_failed=witness.get("after_failed"))
     rec.case(witness)
